@@ -65,6 +65,7 @@ type Lexer struct {
 	err error
 
 	inTag bool
+	inPI  bool // the tag we are in is a processing instruction: only "?>" ends it
 
 	text    []byte
 	attrVal []byte
@@ -113,11 +114,12 @@ func (l *Lexer) Next() (TokenType, []byte) {
 				l.err = parse.NewErrorLexer(l.r, "unexpected NULL character")
 			}
 			return ErrorToken, nil
-		} else if c != '>' && (c != '/' && c != '?' || l.r.Peek(1) != '>') {
+		} else if !l.atTagEnd(c) {
 			return AttributeToken, l.shiftAttribute()
 		}
 		l.r.Skip()
 		l.inTag = false
+		l.inPI = false
 		if c == '/' {
 			l.r.Move(2)
 			return StartTagCloseVoidToken, l.r.Shift()
@@ -157,6 +159,7 @@ func (l *Lexer) Next() (TokenType, []byte) {
 			} else if c == '?' {
 				l.r.Move(2)
 				l.inTag = true
+				l.inPI = true
 				return StartTagPIToken, l.shiftStartTag()
 			}
 			l.r.Move(1)
@@ -253,7 +256,7 @@ func (l *Lexer) shiftCommentText() []byte {
 func (l *Lexer) shiftStartTag() []byte {
 	nameStart := l.r.Pos()
 	for {
-		if c := l.r.Peek(0); c == ' ' || c == '>' || (c == '/' || c == '?') && l.r.Peek(1) == '>' || c == '\t' || c == '\n' || c == '\r' || c == 0 {
+		if c := l.r.Peek(0); c == ' ' || l.atTagEnd(c) || c == '\t' || c == '\n' || c == '\r' || c == 0 {
 			break
 		}
 		l.r.Move(1)
@@ -266,7 +269,7 @@ func (l *Lexer) shiftAttribute() []byte {
 	nameStart := l.r.Pos()
 	var c byte
 	for { // attribute name state
-		if c = l.r.Peek(0); c == ' ' || c == '=' || c == '>' || (c == '/' || c == '?') && l.r.Peek(1) == '>' || c == '\t' || c == '\n' || c == '\r' || c == 0 {
+		if c = l.r.Peek(0); c == ' ' || c == '=' || l.atTagEnd(c) || c == '\t' || c == '\n' || c == '\r' || c == 0 {
 			break
 		}
 		l.r.Move(1)
@@ -307,7 +310,7 @@ func (l *Lexer) shiftAttribute() []byte {
 			}
 		} else { // attribute value unquoted state
 			for {
-				if c = l.r.Peek(0); c == ' ' || c == '>' || (c == '/' || c == '?') && l.r.Peek(1) == '>' || c == '\t' || c == '\n' || c == '\r' || c == 0 {
+				if c = l.r.Peek(0); c == ' ' || l.atTagEnd(c) || c == '\t' || c == '\n' || c == '\r' || c == 0 {
 					break
 				}
 				l.r.Move(1)
@@ -349,6 +352,15 @@ func (l *Lexer) shiftEndTag() []byte {
 }
 
 ////////////////////////////////////////////////////////////////
+
+// atTagEnd returns true when the tag ends at c: at '>', "/>" or "?>", but inside a processing
+// instruction only at "?>" (its content may contain '>').
+func (l *Lexer) atTagEnd(c byte) bool {
+	if l.inPI {
+		return c == '?' && l.r.Peek(1) == '>'
+	}
+	return c == '>' || (c == '/' || c == '?') && l.r.Peek(1) == '>'
+}
 
 func (l *Lexer) at(b ...byte) bool {
 	for i, c := range b {
